@@ -172,17 +172,47 @@ fn check_std_direct(
                     }
                 }
                 if ml_eff {
-                    let slow = granular(o) && {
-                        // the printer's own re-search decides fast/slow; any match the real matcher finds in
-                        // the block (with the look-ahead it is given) makes it slow
-                        let b = &trace.bufs[*buf];
-                        let cut = (*re + 128).min(b.len());
-                        matcher.find_at(&b[..cut], *rs).ok().flatten().map_or(false, |m| m.start() < *re)
-                    };
-                    for (lo, l) in split_lines(bytes) {
+                    // the matches the printer can see in the block: the matcher iterated over the buffer cut
+                    // MAX_LOOK_AHEAD bytes after the block, from the start of the block (an empty match at the
+                    // very end of an unterminated last line counts)
+                    let b = &trace.bufs[*buf];
+                    let cut = (*re + 128).min(b.len());
+                    let at_end = cut == *re && bytes.last() != Some(&b'\n');
+                    let mut ms: Vec<(usize, usize)> = vec![];
+                    if granular(o) {
+                        let _ = matcher.find_iter_at(&b[..cut], *rs, |m| {
+                            if m.start() >= *re && !(at_end && m.start() == *re) {
+                                return false;
+                            }
+                            ms.push((m.start() - *rs, m.end() - *rs));
+                            true
+                        });
+                    }
+                    let slow = !ms.is_empty();
+                    let lines = split_lines(bytes);
+                    for (_, l) in &lines {
                         if slow && o.crlf && l.last() == Some(&b'\n') && !(l.len() >= 2 && l[l.len() - 2] == b'\r') {
                             crlf_ml = true;
                         }
+                    }
+                    if slow && o.vimgrep {
+                        // --vimgrep: one record per match, on the first line of the block that overlaps it
+                        rep.branch("std:vimgrep-multi-line-direct");
+                        for (ms_s, ms_e) in &ms {
+                            if let Some((lo, l)) = lines.iter().find(|(lo, l)| *lo < *ms_e && lo + l.len() > *ms_s) {
+                                expects.push(Some(Expect {
+                                    is_ctx: false,
+                                    line_off: off + lo,
+                                    line_len: l.len(),
+                                    col_rel: Some(ms_s.saturating_sub(*lo)),
+                                    per_match: false,
+                                    col_unchecked: false,
+                                }));
+                            }
+                        }
+                        continue;
+                    }
+                    for (lo, l) in lines {
                         expects.push(Some(Expect {
                             is_ctx: false,
                             line_off: off + lo,
@@ -192,17 +222,20 @@ fn check_std_direct(
                             col_unchecked: slow,
                         }));
                     }
-                    // the block stands for all its lines; mark with a sentinel so the walk below knows
                     continue;
                 }
                 let cont = content(bytes, o.crlf);
                 let first = if o.invert { None } else { matcher.find(cont).ok().flatten() };
+                let mut ms = vec![];
                 if o.vimgrep && !o.invert {
-                    let mut ms = vec![];
                     let _ = matcher.find_iter(cont, |m| {
                         ms.push(m.start());
                         true
                     });
+                }
+                // (a line the searcher reports although the matcher finds nothing in its content — C01/F1 under
+                // --crlf — is printed once, without column, like any line without recorded matches)
+                if o.vimgrep && !o.invert && !ms.is_empty() {
                     for s in ms {
                         expects.push(Some(Expect {
                             is_ctx: false,
@@ -358,6 +391,22 @@ fn check_std_direct(
             }
         }
     }
+    if first_record && !trace.evs.is_empty() {
+        // records were due but none is printed (multi-line --vimgrep drops an empty match at the start of a
+        // line): the search prelude may still have been written
+        if o.sepsearch {
+            let sep = [b"==", term].concat();
+            if rest.starts_with(&sep) {
+                rest = &rest[sep.len()..];
+            }
+        }
+        if o.heading && o.with_path {
+            let h = [path.as_bytes(), if o.null { &b"\0"[..] } else { term }].concat();
+            if rest.starts_with(&h) {
+                rest = &rest[h.len()..];
+            }
+        }
+    }
     if !rest.is_empty() {
         return fail(format!("unexpected trailing output {:?}", show(&rest[..rest.len().min(40)])));
     }
@@ -489,7 +538,7 @@ fn run_std(case: &str, o: &Opts, drv: &mut Driver, rep: &mut Report) {
             );
         }
         // ---- the property on the implementation directly (only-matching is outside C09)
-        if !o.only && !(ml && o.vimgrep) {
+        if !o.only {
             match check_std_direct(drv, o, &matcher, ml, &path, input, trace, out, rep) {
                 Ok(()) => {}
                 Err((class, detail)) => viol(
@@ -788,9 +837,22 @@ fn run_enc(case: &str, parts: &[&str], drv: &mut Driver, rep: &mut Report) {
         Some("d") => {
             let n: u64 = parts.get(2).and_then(|s| s.parse().ok()).unwrap_or(0);
             let m = drv.ask(&format!("c09.decimal {}", n));
+            // implementation: the private DecimalFormatter through the verif hook (numbers the printers cannot
+            // reach through real offsets, up to u64::MAX)
+            let imp = grep_printer::verif::decimal(n);
+            if m != hex(&imp) {
+                viol(
+                    rep,
+                    "impl_vs_model",
+                    "",
+                    "util::DecimalFormatter (hook grep_printer::verif::decimal) vs Model.Printer.decimal (theorem decimal_roundtrip)",
+                    case,
+                    format!("{}: impl {:?} model {}", n, show(&imp), m),
+                );
+            }
             // reference: Rust's own Display for u64 (the unit test of DecimalFormatter uses the same oracle)
-            if m != hex(n.to_string().as_bytes()) {
-                viol(rep, "model_vs_spec", "", "decimal vs u64::to_string", case, format!("model {} for {}", m, n));
+            if imp != n.to_string().as_bytes() {
+                viol(rep, "impl_vs_spec", "", "DecimalFormatter vs u64::to_string", case, format!("impl {:?} for {}", show(&imp), n));
             }
             let back = drv.ask(&format!("c09.parsenat {}", m));
             if back != n.to_string() {
@@ -822,6 +884,30 @@ fn run_enc(case: &str, parts: &[&str], drv: &mut Driver, rep: &mut Report) {
                     viol(rep, "model_vs_spec", "", "model base64 vs independent decoder", case, format!("{:?}: {}", show(&b), d));
                 }
             }
+        }
+        Some("b") => {
+            // base64_standard on arbitrary bytes (through the verif hook) vs the model vs an independent decoder
+            let b = parts.get(2).and_then(|s| unhex(s)).unwrap_or_default();
+            let imp = grep_printer::verif::base64(&b);
+            let m = drv.ask(&format!("c09.base64 {}", hex(&b)));
+            if m != hex(imp.as_bytes()) {
+                viol(
+                    rep,
+                    "impl_vs_model",
+                    "",
+                    "jsont::base64_standard (hook grep_printer::verif::base64) vs Model.Json.base64 (theorem base64_roundtrip)",
+                    case,
+                    format!("{:?}: impl {:?} model {}", show(&b), imp, m),
+                );
+            }
+            if base64_decode(imp.as_bytes()).as_deref() != Some(&b[..]) {
+                viol(rep, "impl_vs_spec", "", "base64_standard vs RFC 4648 decoder", case, format!("{:?} -> {:?}", show(&b), imp));
+            }
+            let back = drv.ask(&format!("c09.unbase64 {}", m));
+            if back != hex(&b) {
+                viol(rep, "model_vs_spec", "", "theorem base64_roundtrip contradicted", case, format!("{} reads back as {}", hex(&b), back));
+            }
+            rep.branch(&format!("enc:base64-rem{}", b.len() % 3));
         }
         _ => rep.notes.push(format!("unparsable case: {}", case)),
     }
@@ -1179,13 +1265,18 @@ fn main() {
                 }
                 10 => gen_opts(&mut rng, multi, boundary, false).to_case("clijson"),
                 _ => {
-                    if rng.chance(1, 3) {
+                    if rng.chance(1, 4) {
+                        let len = rng.below(14);
+                        let b: Vec<u8> = (0..len).map(|_| rng.below(256) as u8).collect();
+                        format!("enc b {}", hex(&b))
+                    } else if rng.chance(1, 3) {
                         let n = match rng.below(4) {
                             0 => rng.below(20) as u64,
                             1 => 10u64.pow(rng.below(20) as u32),
                             2 => 10u64.pow(rng.range(1, 19) as u32) - 1,
                             _ => rng.next(),
                         };
+                        let n = if rng.chance(1, 10) { u64::MAX - rng.below(3) as u64 } else { n };
                         format!("enc d {}", n)
                     } else {
                         let len = rng.below(9);
